@@ -9,6 +9,7 @@ fn s(x: &str) -> String { x.to_string() }
 /// Executes one case from its textual inputs and writes the observation. Every generator goes
 /// through this function, so that `replay` re-runs exactly what `gen` ran.
 pub fn run(key: &str, a: &[String], out: &mut Out) {
+    out.begin(key, a);
     match key {
         "C01.bin" => {
             // n table L R => result result-with-lazy-table
@@ -138,6 +139,25 @@ pub fn gen(tier: Tier, rng: &mut Rng64, out: &mut Out) {
             run("C01.ter", &[random_table3(rng, c3), c3.to_string(), x.clone(), y.clone(), z.clone()], out);
             if c3 % 16 == 0 { run("C01.ite", &[x, y, z], out); }
         }
+    }
+    // --- operands with more than 65 536 nodes (pointers that need a third byte): pseudo-random
+    // functions over 20 variables against small and large partners
+    let bigs = if thorough { 6 } else { 2 };
+    for k in 0..bigs {
+        let n = 20usize;
+        let tt: Vec<bool> = (0..(1usize << n)).map(|_| rng.bool()).collect();
+        let big = fmt_bdd(&bdd_of_tt(n, &tt));
+        let small = if k % 2 == 0 {
+            fmt_bdd(&bdd_of_tt(n, &(0..(1usize << n)).map(|i| i & 1 == 1).collect::<Vec<_>>())) // literal x19
+        } else {
+            let m: usize = rng.next() as usize & ((1 << n) - 1);
+            fmt_bdd(&bdd_of_tt(n, &(0..(1usize << n)).map(|i| (i & m).count_ones() % 2 == 1).collect::<Vec<_>>()))
+        };
+        let name = NAMES[k % NAMES.len()];
+        run("C01.named", &[s(name), big.clone(), small.clone()], out);
+        run("C01.named", &[s(NAMES[(k + 2) % NAMES.len()]), small.clone(), big.clone()], out);
+        if k == 0 { run("C01.not", &[big.clone()], out); }
+        if k % 2 == 1 || thorough { run("C01.ite", &[small.clone(), big.clone(), small.clone()], out); }
     }
     // --- eval_in on all valuations of sampled small functions
     for _ in 0..(if thorough { 2000 } else { 100 }) {
